@@ -186,13 +186,18 @@ R_CONDS = [T.NULL, L("ValueDataType", "equal_to", int), L("Value", "in_range", 0
            L("Value", "in_", [1, ("$path", P((("prim", "b"),)))]),
            # literal mapping arguments with 'path' among several keys (escaped in the spec): first, last, in a list
            L("Value", "equal_to", {"name": "x", "path": ["b"]}), L("Value", "in_", [{"path": ["b"], "k": 1}, 2]),
-           L("Value", "items_contain", a={"n": 1, "Path.first": ["b"], "z": 2})]
+           L("Value", "items_contain", a={"n": 1, "Path.first": ["b"], "z": 2}),
+           # a literal one-item mapping keyed like the callable's own parameter
+           L("Value", "equal_to", {"value": 3}), ("or", L("Value", "in_", {"value": "abc"}), L("ValueLength", "equal_to", {"value": 1}))]
 R_CASTS = [(), (("str", "bool"),), (("str", "int"),)]
 DOC_FORMS = [
     None, "a text\n", ["line 1 ", " line 2\n"], {"description": "d\n"}, {"description": ["d1", " d2 "]},
     {"description": "d", "examples": [" e1\n", "e2"]}, {"examples": ["only example "]}, {"description": [], "examples": []},
 ]
+YAML_WORDS = ["on", "off", "yes", "no", "y", "n", "Yes", "NO", "On", "010", "0o10", "0x1F", "1e3", "1_000", "~", "null", "Null", "true",
+              "True", "1:30", ".5", "+1", "<<", "=", "2001-01-01", "1.", "-", "a: b", "#x", "", " lead", "'q'"]
 R_DOCS = [
+    {"cfg": {w: w for w in YAML_WORDS}, **{w: w for w in YAML_WORDS}}, {"cfg": {True: "on", 8: "010", 1000: "1e3", None: "~"}, True: "yes", 8: "010"},
     {"a": "3", "b": 1}, {"a": ["3", 1, "true"]}, {"a": {"a": [[1], []], "b": 2}, "b": {"a": "1"}}, [{"a": 1}, {"a": "x"}],
     {"a": 7}, {"a": [], "c": [1, 2]},
 ]
@@ -238,7 +243,7 @@ def units(tier):
     u += [["path", plen, lo, hi] for lo, hi in gen.chunks(npaths, 6)]
     u += [["str", n, d] for n in range(4) for d in ("/", ".")]
     u += [["rule", i] for i in range(len(R_PATHS))]
-    u += [["yaml", i] for i in range(10)]
+    u += [["yaml", i] for i in range(10)] + [["yamlwords"]]
     u += [["alias"]]
     return u
 
@@ -292,6 +297,15 @@ def run_unit(unit, tier):
         res.sample({"kind": "str", "segments": ["a", "0"][:n], "delimiter": delim})
     elif kind == "alias":
         check_aliased(res)
+    elif kind == "yamlwords":
+        # strings that other YAML dialects / versions read as something else (booleans, octal / hex / sexagesimal
+        # numbers, null, the merge key) as path parts, condition arguments and part labels: the schema text is what a
+        # YAML 1.2 safe dump of the spec gives (plain scalars where 1.2 allows them) and its flow form
+        for wi, w in enumerate(YAML_WORDS):
+            rt1 = T.rule(P((("prim", "cfg"), ("prim", w))), L("Value", "in_", [w, "zz"]))
+            rt2 = T.rule(P((("map", ("lit", w), None, w or "empty"),)), L("Value", "equal_to", w), (("str", "int"),))
+            check_yaml(res, [rt1], key=("yamlwords", wi, 1))
+            check_yaml(res, [rt2, rt1], key=("yamlwords", wi, 2))
     elif kind == "rule":
         p = R_PATHS[unit[1]]
         for ci, c in enumerate(R_CONDS):
